@@ -95,12 +95,28 @@ def lease_jobs(scn: Scenario, steps: Dict[str, int], seed: int, n: int) -> List[
     return jobs
 
 
+def fault_race_jobs(scn: Scenario, steps: Dict[str, int]) -> List[Tuple[str, Any]]:
+    """p is paused at gate i; every other committer runs a whole commit; p's NEXT request fails without having landed
+    (a transport error: OSError / botocore ClientError); p resumes.  With i at the pointer write this is "the conditional
+    PUT was lost in transit after a rival's commit landed": whatever p does next (report, re-read, re-send) must not
+    acknowledge on a pointer other than the one it validated."""
+    names = [a.name for a in scn.actors]
+    jobs: List[Tuple[str, Any]] = []
+    for p in names:
+        others = [x for x in names if x != p]
+        for i in range(0, steps.get(p, 0) + 1):
+            for kind in ("oserror", "clienterror"):
+                jobs.append(("list", [[p, i]] + [[q, 400] for q in others] + [["fault", p, "before", kind], [p, 400]] + [[q, 400] for q in others]))
+    return jobs
+
+
 def run(ctx: Ctx) -> None:
     quick = ctx.tier == "quick"
     try:
         c01.run_mc(ctx, mc_configs(quick), INV)
         plain = [s for s in scenarios(quick) if s.lock_kind != "lease"]
-        c01.conformance(ctx, plain, n_random=12 if quick else 300, n_double=20 if quick else 500, stride=1)
+        c01.conformance(ctx, plain, n_random=12 if quick else 300, n_double=20 if quick else 500, stride=1,
+                        extra_jobs=lambda scn, steps: fault_race_jobs(scn, steps) if (not quick or scn.name == "s3-2app-grantall") else [])
         # lease scenarios: schedules with lease lapses and heartbeats
         lease = [s for s in scenarios(quick) if s.lock_kind == "lease"]
         c01.conformance(ctx, lease, n_random=0, n_double=10 if quick else 200, stride=2 if quick else 1,
@@ -109,7 +125,7 @@ def run(ctx: Ctx) -> None:
         l1.close_pool()
     ctx.rule("model: all interleavings under a lock that grants everyone and under a lease lock with lapses/heartbeats at every point; implementation: real "
              "MetadataManager.commit + S3LockProvider on the in-memory S3, every single-pause schedule (= a conditional PUT delayed past whole commits of the others), "
-             "lease lapse inserted at every scheduling point, seeded multi-pause schedules; non-trivial = conflict/retry/takeover occurred or steps interleave")
+             "lease lapse inserted at every scheduling point, a never-landed (transport) failure of every request after the rival's whole commit, seeded multi-pause schedules; non-trivial = conflict/retry/takeover occurred or steps interleave")
     ctx.assume("the in-memory S3 is strongly consistent with content-hash (MD5) ETags and AWS conditional-PUT semantics",
                "a pointer write delayed in flight is represented by pausing the writer immediately before the request (its precondition is evaluated on landing)",
                "the lease lock is abstracted to holder + last-renewal time here; its request-level protocol is C19's S3Lock.tla")
